@@ -65,3 +65,29 @@ def strip_ops(term, allowed):
 
 def canon_mid(text):
     return re.sub(r"\bm\d+\b", "m", re.sub(r"#\d+", "#", text))
+
+
+def extent_of_term(term, interp):
+    """(lo, hi) linear forms of the slice of the scanned data that a text term denotes: a match group, or a constant-free
+    prefix / suffix slice of one.  None when the term is not a contiguous piece of the data."""
+    if not isinstance(term, tuple) or not term:
+        return None
+    if term[0] == "group" and len(term) == 3:
+        return Lin.sym(f"{term[1]}.start({term[2]})"), Lin.sym(f"{term[1]}.end({term[2]})")
+    if term[0] == "slice" and len(term) == 4:
+        inner = extent_of_term(term[1], interp)
+        if inner is None:
+            return None
+        lo, hi = inner
+
+        def lin(x):
+            if x is None or isinstance(x, Lin):
+                return x
+            if isinstance(x, int):
+                return Lin.const(x)
+            return interp.as_lin(x)
+        a, b = lin(term[2]), lin(term[3])
+        if (term[2] is not None and a is None) or (term[3] is not None and b is None):
+            return None
+        return (lo if a is None else lo + a), (hi if b is None else lo + b)
+    return None
